@@ -77,6 +77,12 @@ var c11 = gen.Register(&gen.Check[caseC11]{
 		if gen.Chance(t, "exceptional", 1, 16) {
 			return caseC11{U: fv(rapid.SampledFrom(ref.ExceptionalU()).Draw(t, "exc"))}
 		}
+		if gen.Chance(t, "output-targeted", 1, 60) {
+			// drive a coordinate of the RESULT to a boundary pattern: solve the curve equation for x', then x1(u) = x' or x2(u) = x'
+			if us := solveOutput(rapid.IntRange(0, 1).Draw(t, "coord"), FVGen().Draw(t, "tau").Value(), gen.U64(t, "salt")); len(us) > 0 {
+				return caseC11{U: fv(us[rapid.IntRange(0, len(us)-1).Draw(t, "which")]), Target: true}
+			}
+		}
 		if gen.Chance(t, "deep-targeted", 1, 40) {
 			// drive ANY polynomial intermediate of the straight-line program (steps 1-17, 19) to a boundary pattern, in canonical or
 			// Montgomery form, by root finding (see solved_test.go)
@@ -105,7 +111,7 @@ var c11 = gen.Register(&gen.Check[caseC11]{
 			out = append(out, caseC11{U: fv(u)})
 		}
 		for i, e := range solvedFixed() {
-			if e.Kind == "sswu" && i%gen.DictStride() == 0 {
+			if (e.Kind == "sswu" || e.Kind == "sswu-out") && i%gen.DictStride() == 0 {
 				out = append(out, caseC11{U: FV{Hex: e.Root}, Target: true})
 			}
 		}
